@@ -80,6 +80,17 @@ def evaluate(case):
         viol.append(V("integral-of-total-mobility", f"pseudopressure differs from the trapezoid integral of the "
                       f"documented total mobility by {err:.3g} of its range (at p={p[k]:.6g}: {m[k]!r} vs {want[k]!r})",
                       case=case, observed=float(m[k]), expected=float(want[k]), tol=1e-12))
+    # call history on the SAME pvt / kr function objects: another saturation path, then the first call again
+    So_b = np.clip(So * 0.5 + 0.05, 0.0, float(krt["So"].max()))
+    m_b = np.asarray(fp.pseudopressure_threephase(p, So_b, pvt, kr), dtype=float)
+    want_b = trapezoid_cum(mp.lam_doc(p, So_b, tb, kr, rho), p)
+    if not np.max(np.abs(m_b - want_b)) <= 1e-12 * max(abs(want_b[-1]), 1e-300):
+        viol.append(V("integral-of-total-mobility/other-So", "a second call on the same PVT / rel-perm functions with other "
+                      "saturations does not return the integral for THOSE saturations", case=case))
+    m_again = np.asarray(fp.pseudopressure_threephase(p, So, pvt, kr), dtype=float)
+    if not np.array_equal(m_again, m):
+        viol.append(V("depends-on-call-history", "the first call repeated after a call with other saturations returns "
+                      "something else", case=case))
     pos = lam[1:] + lam[:-1] > 0
     if np.any(np.diff(m)[~pos] != 0):
         k = int(np.flatnonzero(~pos & (np.diff(m) != 0))[0])
